@@ -119,42 +119,59 @@ def run(case):
             entries.append(("root_decomposition", lambda o, x: o.root_decomposition().to_dense(), lambda d, x: d, None, 1e-6))
             entries.append(("pivoted_cholesky", lambda o, x: (lambda L: L @ L.mT)(o.pivoted_cholesky(rank=r, error_tol=1e-14)), lambda d, x: d, None, 1e-6))
             entries.append(("sqrt_inv_matmul", lambda o, x: o.sqrt_inv_matmul(x), lambda d, x: mat_fun(d, -0.5) @ x, X, 1e-4))
+    if pd:
+        entries.append(("solve_left", lambda o, x, l: o.solve(x, l), lambda d, x, l: l @ torch.linalg.solve(d, x), X, it, Xl))
+        if cfgs.get("max_cholesky_size") != 0:
+            entries.append(("sqrt_inv_matmul_left", lambda o, x, l: (lambda t: t[0].sum() + t[1].sum())(o.sqrt_inv_matmul(x, l)),
+                            lambda d, x, l: (l @ mat_fun(d, -0.5) @ x).sum() + (l * (l @ torch.linalg.inv(d))).sum(), X, 1e-4, Xl))
+    entries = [e if len(e) == 6 else (*e, None) for e in entries]
     subs = []
     # Mul goes through root decompositions of its operands, and kernel operators transpose by swapping their inputs
     # (k(x1,x2)^T = k(x2,x1)): both are functions of the symmetric part of a symmetric parameter only
     sym_all = bool({"Mul", "Kernel"} & set(heads))
-    sym_entries = {"solve", "inv_quad", "logdet", "inv_quad_logdet", "root_decomposition", "pivoted_cholesky", "sqrt_inv_matmul"}
+    sym_entries = {"solve", "solve_left", "inv_quad", "logdet", "inv_quad_logdet", "root_decomposition", "pivoted_cholesky", "sqrt_inv_matmul", "sqrt_inv_matmul_left"}
 
-    def grads(which, fn_impl, fn_dense, xin, subset, settings_cfg):
+    def grads(which, fn_impl, fn_dense, xin, subset, settings_cfg, lin=None, argpat=(True, True)):
         env.settings_restore()
         b, ctx = R.fresh(case["term"], dtype=DT, batch=batch, seed=env.SEED, values="real", grad=set(subset))
         leaves = [ctx.leaves[n_] for n_ in subset]
-        x = None if xin is None else xin.clone().requires_grad_(True)
+        x = None if xin is None else xin.clone().requires_grad_(bool(argpat[0]))
+        l = None if lin is None else lin.clone().requires_grad_(bool(argpat[1]))
+        args = (x,) if lin is None else (x, l)
         if which == "impl":
             env.set_settings(dict(settings_cfg, minres_tolerance=1e-12, num_contour_quadrature=25) if True else settings_cfg)
             with warnings.catch_warnings():
                 warnings.simplefilter("ignore")
-                out = fn_impl(b.op, x)
+                out = fn_impl(b.op, *args)
         else:
-            out = fn_dense(b.dense, x)
+            out = fn_dense(b.dense, *args)
         out = out if torch.is_tensor(out) else out.to_dense()
         Wt = _w(out.shape, "Wout")
         s = (out * Wt).sum()
-        ins = leaves + ([x] if x is not None else [])
+        ins = leaves + [t for t in (x, l) if t is not None and t.requires_grad]
         if not s.requires_grad:  # the result does not depend on any of the chosen leaves
             return [torch.zeros_like(t) for t in ins], ins
         gs = torch.autograd.grad(s, ins, allow_unused=True)
         return [torch.zeros_like(t) if g is None else g for g, t in zip(gs, ins)], ins
 
-    for ename, fi, fd, xin, tol in entries:
-        for subset in subsets:
-            f = dict(base, entry=ename, subset="+".join(s.split(":")[0].split(".", 1)[-1] if "." in s else s for s in subset), nsub=len(subset))
-            key = f"{keyp}|{ename}|{subset}"
-            ref = call(grads, "ref", fi, fd, xin, subset, cfgs)
+    full = list(names)
+    for ename, fi, fd, xin, tol, lin in entries:
+        # which of the caller's argument tensors require grad is part of the subset lattice: every pattern of (rhs, lhs) with no leaf and
+        # with all leaves requiring grad, and the all-arguments pattern with every leaf subset
+        plan = [(subset, (True, True)) for subset in subsets]
+        if xin is not None:
+            pats = [(True, False), (False, True), (False, False)] if lin is not None else [(False, False)]
+            plan += [(full, p) for p in pats]
+            plan += [([], p) for p in ([(True, True), (True, False), (False, True)] if lin is not None else [(True, True)])]
+        for subset, argpat in plan:
+            pat = "" if argpat == (True, True) else f"|args:{'x' if argpat[0] else ''}{'l' if argpat[1] and lin is not None else ''}"
+            f = dict(base, entry=ename, subset="+".join(s.split(":")[0].split(".", 1)[-1] if "." in s else s for s in subset) + pat, nsub=len(subset))
+            key = f"{keyp}|{ename}|{subset}{pat}"
+            ref = call(grads, "ref", fi, fd, xin, subset, cfgs, lin, argpat)
             if isinstance(ref, Raised):
                 subs.append(result(OOD, feat=f, keys=[key], msg=ref.msg))
                 continue
-            got = call(grads, "impl", fi, fd, xin, subset, cfgs)
+            got = call(grads, "impl", fi, fd, xin, subset, cfgs, lin, argpat)
             if isinstance(got, Raised):
                 if is_explicit_unsupported(got, r".*"):
                     subs.append(result(UNSUP, exc=got.type, msg=got.msg, feat=f, keys=[key]))
@@ -165,7 +182,7 @@ def run(case):
             bad = None
             worst = 0.0
             nontriv = False
-            labels = list(subset) + (["rhs"] if xin is not None else [])
+            labels = list(subset) + (["rhs"] if xin is not None and argpat[0] else []) + (["lhs"] if lin is not None and argpat[1] else [])
             for lab, a, bb, t in zip(labels, gi, gr, ins):
                 if tuple(a.shape) != tuple(bb.shape):
                     bad = ("shape", f"gradient wrt {lab} has shape {tuple(a.shape)} != {tuple(bb.shape)}")
